@@ -26,6 +26,18 @@ class Check(object):
         self._n = 0
         self._seen = set()
 
+    def only(self, rec, keys=("clause", "cls", "set", "field", "fmt", "path")):
+        """replay mode: re-run the check on the working tree but report only violations
+        that agree with the replayed record on the given structured keys"""
+        want = {k: rec.get(k) for k in keys if k in rec}
+        orig = self.violation
+
+        def filt(record, dedup=None):
+            if all(record.get(k) == v for k, v in want.items()):
+                return orig(record, dedup)
+            return False
+        self.violation = filt
+
     @property
     def quick(self):
         return self.tier == "quick"
